@@ -551,8 +551,26 @@ func WriteTree(dir string, files map[string]string) error {
 		if err := os.WriteFile(full, []byte(files[rel]), 0644); err != nil {
 			return err
 		}
+		// some files carry the executable bit (committed as mode 100755); a function of the path
+		// only, so that a file keeps its mode over the history
+		mode := os.FileMode(0644)
+		if ExecutableBit(rel) {
+			mode = 0755
+		}
+		if err := os.Chmod(full, mode); err != nil {
+			return err
+		}
 	}
 	return nil
+}
+
+// ExecutableBit: about one path in six is committed with mode 100755.
+func ExecutableBit(rel string) bool {
+	h := uint32(2166136261)
+	for i := 0; i < len(rel); i++ {
+		h = (h ^ uint32(rel[i])) * 16777619
+	}
+	return h%6 == 0
 }
 
 // Git runs git in dir with a fixed identity and the given commit date (unix seconds, 0 = now).
